@@ -24,9 +24,9 @@ theorem TimelockShift_refines : Gen.C04.TimelockShift = (Hint.timelockShift : Na
 theorem StateHintSize_refines : (2 : Int) ^ (8 * Gen.C04.StateHintSize).toNat - 1 = Gen.C04.maxStateHint := by
   decide
 
-private theorem xorU_cast (a b : Nat) : xorU a b = ((a ^^^ b : Nat) : Int) := by
+theorem xorU_cast (a b : Nat) : xorU a b = ((a ^^^ b : Nat) : Int) := by
   simp only [xorU, Int.toNat_natCast]
-private theorem orU_cast (a b : Nat) : orU a b = ((a ||| b : Nat) : Int) := by
+theorem orU_cast (a b : Nat) : orU a b = ((a ||| b : Nat) : Int) := by
   simp only [orU, Int.toNat_natCast]
 
 /-- How the model's result is read as the Go result. -/
